@@ -7,6 +7,12 @@ package main
 //
 //	fstr <level> <sharp> <useDelta> <ref0> <mode0> <useSeg> <abs> <fs0,fs1,fs2,fs3> <simple>
 //	     -> ok <limit>,<ilevel>,<hev>,<inner>;…   for (segment, i4x4) = (0,0),(0,1),(1,0),…,(3,1)
+//	dofilter <filterType> <limit> <ilevel> <hev> <inner> <mbX> <mbY> <yStride> <uvStride> <y> <u> <v>
+//	     -> ok <y> <u> <v>   the three cache planes after the real doFilter(mbX, mbY) (hook lossy.VerifDoFilter)
+//	        vs Webp.Impl.VP8DecEdges.doFilter: frames of 1..3 x 1..3 macroblocks (strides with 0..8 bytes of padding),
+//	        every macroblock position incl. the first row / column, both filter types, limit 0..189, ilevel 1..63,
+//	        hev 0..2, inner on/off; plane contents: smooth random walks (filters fire), noise, flat with 4x4 steps,
+//	        extremes 0/255
 //
 // Generation: (a) every level 0..63 x sharpness 0..7 without deltas/segments, and with one fixed delta and
 // segment setting per (level, sharpness); (b) random headers: level 0..63, sharpness 0..7, ref/mode deltas
@@ -91,6 +97,9 @@ func suiteVP8Dec(rep *Report) error {
 		}
 		cases = append(cases, c)
 	}
+	if err := vp8decDoFilter(rep); err != nil {
+		return err
+	}
 	lines := make([]string, len(cases))
 	goOut := make([]string, len(cases))
 	for i, c := range cases {
@@ -128,6 +137,111 @@ func suiteVP8Dec(rep *Report) error {
 		if goOut[i] != lean[i] {
 			rep.Add(Finding{Kind: "correspondence", Property: "C04", Signature: "vp8dec:filter-strengths",
 				Detail: fmt.Sprintf("go=%q lean=%q", goOut[i], lean[i]), Input: map[string]any{"op": "fstr", "line": lines[i]}})
+		}
+	}
+	return nil
+}
+
+func vdOut(b []byte) string {
+	if len(b) > 4096 {
+		return "d:" + digest(b)
+	}
+	return "x:" + hexRaw(b)
+}
+
+// vp8decPlane draws stride*rows bytes of one of four content classes.
+func vp8decPlane(r *RNG, n int, class int, stride int) []byte {
+	b := make([]byte, n)
+	switch class {
+	case 0: // smooth random walk
+		v := 40 + r.Intn(176)
+		for i := range b {
+			v += r.Intn(7) - 3
+			if v < 0 {
+				v = 0
+			}
+			if v > 255 {
+				v = 255
+			}
+			b[i] = byte(v)
+		}
+	case 1: // noise
+		copy(b, r.Bytes(n))
+	case 2: // flat 4x4 tiles with small steps
+		base := 60 + r.Intn(130)
+		tiles := make([]int, 64*64)
+		for i := range tiles {
+			tiles[i] = base + r.Intn(13) - 6
+		}
+		for i := range b {
+			x, y := i%stride, i/stride
+			b[i] = byte(tiles[((y/4)%64)*64+(x/4)%64])
+		}
+	default: // extremes
+		for i := range b {
+			if r.Chance(1, 2) {
+				b[i] = 255
+			}
+		}
+	}
+	return b
+}
+
+func vp8decDoFilter(rep *Report) error {
+	n := 3000
+	if rep.Tier == "thorough" {
+		n = 60000
+	}
+	lines := make([]string, n)
+	goOut := make([]string, n)
+	classes := []string{"walk", "noise", "tiles", "extremes"}
+	for i := 0; i < n; i++ {
+		r := NewRNG(rep.Seed, uint64(5_000_000+i))
+		mbW, mbH := 1+r.Intn(3), 1+r.Intn(3)
+		mbX, mbY := r.Intn(mbW), r.Intn(mbH)
+		yStride, uvStride := 16*mbW+r.Intn(9), 8*mbW+r.Intn(9)
+		class := r.Intn(4)
+		y := vp8decPlane(r, yStride*16*mbH, class, yStride)
+		u := vp8decPlane(r, uvStride*8*mbH, class, uvStride)
+		v := vp8decPlane(r, uvStride*8*mbH, class, uvStride)
+		ft := 1 + r.Intn(2)
+		limit := r.Intn(190)
+		if r.Chance(1, 3) {
+			limit = r.Intn(40)
+		}
+		ilevel, hev, inner := 1+r.Intn(63), r.Intn(3), r.Bool()
+		lines[i] = fmt.Sprintf("dofilter %d %d %d %d %d %d %d %d %d %s %s %s", ft, limit, ilevel, hev, vd01(inner), mbX, mbY,
+			yStride, uvStride, hexRaw(y), hexRaw(u), hexRaw(v))
+		goOut[i], _ = guard(func() string {
+			gy, gu, gv := verifapi.VP8DoFilter(ft, limit, ilevel, hev, inner, mbX, mbY, yStride, uvStride, y, u, v)
+			changed := "same"
+			if string(gy) != string(y) || string(gu) != string(u) || string(gv) != string(v) {
+				changed = "changed"
+			}
+			rep.Count("dofilter:" + classes[class] + ":" + changed)
+			return "ok " + vdOut(gy) + " " + vdOut(gu) + " " + vdOut(gv)
+		})
+		rep.Count(fmt.Sprintf("dofilter:type%d", ft))
+		if mbX == 0 || mbY == 0 {
+			rep.Count("dofilter:frame-edge-macroblock")
+		}
+		if limit == 0 {
+			rep.Count("dofilter:limit0")
+		}
+	}
+	lean, err := RunDriver(lines)
+	if err != nil {
+		return err
+	}
+	for i := range lines {
+		rep.Eval(true, []byte(lines[i]))
+		if goOut[i] != lean[i] {
+			l := lines[i]
+			if len(l) > 600 {
+				l = l[:600] + "…"
+			}
+			rep.Add(Finding{Kind: "correspondence", Property: "C04", Signature: "vp8dec:dofilter",
+				Detail: fmt.Sprintf("go=%.200q lean=%.200q", goOut[i], lean[i]), Input: map[string]any{"op": "dofilter", "line": l}})
 		}
 	}
 	return nil
